@@ -159,7 +159,7 @@ def lammps_judge(r, case, reverse):
 
 
 def _lammps_job(args):
-    ci, reverse, menu = args
+    ci, reverse, menu, first = args
     case = LAMMPS_CASES[ci]
     wd = scratch.mkdtemp("c12l")
     viols = {}
@@ -170,7 +170,7 @@ def _lammps_job(args):
             r = lammps_run(ch, case, reverse, wd, menu)
             return lammps_judge(r, case, reverse), r["world"].max_visible_per_poll, len(r["path"].phasepoints), r["raised"] is not None
 
-        for ch, (bad, _, plen, raised) in explore(fn):
+        for ch, (bad, _, plen, raised) in explore(fn, prefix=[first]):
             n += 1
             shapes.add((tuple(ch.choices), plen, raised))
             for clause, msg in bad:
@@ -178,7 +178,7 @@ def _lammps_job(args):
                                                       dict(kind="lammps", ci=ci, reverse=reverse, menu=list(menu), choices=ch.choices)))
     finally:
         scratch.rmtree(wd)
-    return ("lammps", ci, reverse), n, len(shapes), viols
+    return ("lammps", ci, reverse, first), n, len(shapes), viols
 
 
 def run(ctx):
@@ -188,7 +188,8 @@ def run(ctx):
     jobs = []
     for ci in range(len(LAMMPS_CASES)):
         for reverse in (False, True):
-            jobs.append((ci, reverse, menu))
+            for first in range(len(menu)):
+                jobs.append((ci, reverse, menu, first))
     with mp.get_context("fork").Pool(min(16, os.cpu_count() or 1)) as pool:
         res = pool.map(_lammps_job, jobs, chunksize=1)
     n = 0
@@ -200,7 +201,7 @@ def run(ctx):
         for sig, (msg, rp) in viols.items():
             ctx.violation(sig, msg, rp)
     extra = 0
-    for modname in ("c12_cp2k", "c12_gromacs", "c12_inproc"):
+    for modname in ("c12_ext", "c12_inproc"):
         try:
             mod = __import__(f"checks.{modname}", fromlist=["run_part"])
         except ImportError:
